@@ -19,7 +19,10 @@ RULE = (
     "messages: the zero word, unit messages and seeded random 96-bit messages (Hypothesis for the linearity / reference / "
     "round-trip clauses); faults: ALL 196 single-bit and ALL 19110 double-bit inversions of the 196 transmitted bits per "
     "chosen codeword (complete enumeration).  A case is (message, error pattern); distinct by construction inside the "
-    "enumeration, by hash in the Hypothesis part.  Non-trivial: error patterns of weight 2; messages with >= 2 set bits."
+    "enumeration, by hash in the Hypothesis part.  Non-trivial: error patterns of weight 2; messages with >= 2 set bits.  "
+    "Besides sampled codewords the enumeration runs on 41 structured codewords (all-ones; one info column / row all-ones "
+    "or all-zeros in an otherwise complementary message): complete pattern set in thorough, all singles + all same-row and "
+    "same-column pairs in quick."
 )
 ASSUMPTIONS = [
     "reference encoder vp/refs/bptc_ref.py written from ETSI TS 102 361-1 B.1.1 (Hamming(15,11,3) rows, Hamming(13,9,3) "
@@ -156,28 +159,87 @@ def drv_linearity(ctx: Ctx, sub: SubCheck):
     ctx.shards(hyp, list(range(16)))
 
 
+def _structured_messages():
+    """Messages that put extreme data into single rows / columns of the 13x15 matrix: all-ones, one info column all-ones
+    (11 columns), one info row all-ones (9 rows), complements of those.  A repair that is not translation invariant (a
+    table-driven corrector with a missing entry, a cache) shows on such codewords and not on zero/unit/most random ones
+    (added after seeded change C02-2)."""
+    cells = []  # (row, col) of the 96 info bits in message order
+    for r in range(9):
+        for c in range(11):
+            if r == 0 and c < 3:
+                continue
+            cells.append((r, c))
+    out = []
+    full = (1 << 96) - 1
+    out.append(("all_ones", full))
+    for c in range(11):
+        v = 0
+        for i, (rr, cc) in enumerate(cells):
+            if cc == c:
+                v |= 1 << (95 - i)
+        out.append((f"col{c}_ones", v))
+        out.append((f"col{c}_zeros", full ^ v))
+    for r in range(9):
+        v = 0
+        for i, (rr, cc) in enumerate(cells):
+            if rr == r:
+                v |= 1 << (95 - i)
+        out.append((f"row{r}_ones", v))
+        out.append((f"row{r}_zeros", full ^ v))
+    return [(name, "%024x" % v) for name, v in out]
+
+
+def _line_patterns():
+    """all single errors + all pairs inside one matrix row + all pairs inside one matrix column (in transmit positions):
+    the patterns whose correction needs the row and the column decoder to cooperate"""
+    pos = {}
+    for k in range(1, 196):
+        r, c = divmod(k - 1, 15)
+        pos[(r, c)] = bptc_ref.bptc196_position(k)
+    pats = [[i] for i in range(196)]
+    for r in range(13):
+        for a, b in itertools.combinations(range(15), 2):
+            pats.append(sorted([pos[(r, a)], pos[(r, b)]]))
+    for c in range(15):
+        for a, b in itertools.combinations(range(13), 2):
+            pats.append(sorted([pos[(a, c)], pos[(b, c)]]))
+    return pats
+
+
 def drv_fault(ctx: Ctx, sub: SubCheck):
     msgs = _messages(ctx, n_random=ctx.pick(1, 8), n_unit=ctx.pick(0, 8))
     if ctx.quick:
         msgs = msgs[1:]  # quick: one random codeword (the zero word is covered by thorough)
+    msgs = [("all_ones", "%024x" % ((1 << 96) - 1))] + [("sampled", m) for m in msgs]
     patterns = [[i] for i in range(196)] + [list(p) for p in itertools.combinations(range(196), 2)]
+    line = _line_patterns()
     items = []
-    for msg in msgs:
+    for name, msg in msgs:
         for lo in range(0, len(patterns), 400):
-            items.append((msg, lo, min(len(patterns), lo + 400)))
+            items.append((name, msg, "all", lo, min(len(patterns), lo + 400)))
+    # structured codewords: complete pattern set in thorough, the row/column line patterns in quick
+    for name, msg in _structured_messages()[1:]:
+        pats = "all" if not ctx.quick else "line"
+        n = len(patterns) if pats == "all" else len(line)
+        for lo in range(0, n, 400):
+            items.append((name, msg, pats, lo, min(n, lo + 400)))
 
     def work(it, t: Tally):
-        msg, lo, hi = it
-        for p in patterns[lo:hi]:
+        name, msg, which, lo, hi = it
+        src = patterns if which == "all" else line
+        for p in src[lo:hi]:
             ctx.run_case(sub.name, oracle_fault, {"msg": msg, "flips": p}, t)
-            t.case(sub.name, nontrivial=(len(p) == 2), cls=f"weight_{len(p)}")
-        t.sample(sub.name, {"msg": msg, "flips": patterns[lo + (hi - lo) // 2]})
+            t.case(sub.name, nontrivial=(len(p) == 2), cls=f"weight_{len(p)}:{'structured' if name != 'sampled' else 'sampled'}")
+        t.sample(sub.name, {"msg": msg, "flips": src[lo + (hi - lo) // 2]})
 
     ctx.shards(work, items)
     ctx.tally.exhaustive[sub.name] = True
     ctx.tally.extra["fault_patterns_per_codeword"] = len(patterns)
-    ctx.tally.extra["codewords_under_fault_enumeration"] = msgs
-    ctx.tally.notes.append("exhaustive over all weight<=2 error patterns for each listed codeword; messages are sampled (linearity clause)")
+    ctx.tally.extra["line_patterns_per_structured_codeword_quick"] = len(line)
+    ctx.tally.extra["codewords_under_complete_fault_enumeration"] = [m for n, m in msgs] + ([m for n, m in _structured_messages()[1:]] if not ctx.quick else [])
+    ctx.tally.extra["structured_codewords"] = [n for n, m in _structured_messages()]
+    ctx.tally.notes.append("exhaustive over all weight<=2 error patterns for each listed codeword (structured codewords in quick: all singles + all same-row and same-column pairs); messages are chosen, not enumerated (linearity clause)")
 
 
 SUBCHECKS = [
